@@ -8,6 +8,9 @@ From FT Require Import Model.Base Model.Obs Model.C16Metrics Model.C16Nest Model
 Import ListNotations.
 Open Scope Z_scope.
 
+Section WithZZ.
+Context {zz : ZZ}.
+
 (* ------------------------------------------------------------------ generic facts on ltrace *)
 Definition ev_key (e : mev) : option (Z * Z) :=
   match e with
@@ -456,3 +459,5 @@ Proof.
                induction N1 as [|el l Hel Hl IHl]; auto. cbn [flat_map]. rewrite uses_app, (Hnil _ Hel), IHl. reflexivity. }
            rewrite Hn0. reflexivity.
 Qed.
+
+End WithZZ.
